@@ -7,6 +7,7 @@ import (
 	"fmt"
 	"os"
 	"os/exec"
+	"os/signal"
 	"path/filepath"
 	"sort"
 	"strings"
@@ -170,6 +171,19 @@ func (s *Sandbox) ReadMarkers() map[string]string {
 		}
 	}
 	return out
+}
+
+// A process started in the background of a non-interactive shell (`cmd &`) has SIGINT ignored, and an ignored signal
+// stays ignored across exec: a grog child would then lose an interrupt that arrives before it has installed its own
+// handler (seen once, on a machine so loaded that grog needed seconds to start). Catching the signals here makes every
+// child start with the default disposition, as it would from a terminal. Nothing sends these signals to the harness.
+func init() {
+	ch := make(chan os.Signal, 1)
+	signal.Notify(ch, os.Interrupt, syscall.SIGTERM)
+	go func() {
+		for range ch {
+		}
+	}()
 }
 
 type Result struct {
